@@ -107,7 +107,7 @@ def scripted_physics(script: Script, key_fn=None):
         sr.GHE, sr.calc_g_func_for_multiple_lengths = saved
 
 
-def run_design(kind, domain, descriptors, script, cap, flag):
+def run_design(kind, domain, descriptors, script, cap, flag, key_fn=None):
     """Run the real search class + the manager's closing sizing.  Returns a record for the judges."""
     import ghedesigner.search_routines as sr
     from ghedesigner.enums import FlowConfigType, TimestepType
@@ -120,7 +120,8 @@ def run_design(kind, domain, descriptors, script, cap, flag):
     rec = {"kind": kind, "cap": cap, "flag": flag}
     out = io.StringIO()
     script.log = []
-    with scripted_physics(script), contextlib.redirect_stdout(out):
+    kf = key_fn or key_of
+    with scripted_physics(script, key_fn=key_fn), contextlib.redirect_stdout(out):
         try:
             s = cls(domain, descriptors, 0.5, borehole, None, fluid, None, None, None, sp, [], method=TimestepType.HYBRID, flow_type=FlowConfigType.BOREHOLE)
             # GHEManager.find_design: compute_g_functions(); size()
@@ -128,7 +129,7 @@ def run_design(kind, domain, descriptors, script, cap, flag):
             s.ghe.size(method=TimestepType.HYBRID)
             rec["outcome"] = "design"
             sel = s.selected_coordinates
-            rec["key"] = key_of(sel)
+            rec["key"] = kf(sel)
             rec["count"] = len(sel)
             rec["H"] = float(s.ghe.bhe.b.H)
             rec["ghe_key"] = s.ghe.key
@@ -455,6 +456,37 @@ def run_batch(spec):
             sc2 = Script(tab, slope)
             rec = run_design("zd", nested, descr, sc2, cap, flag)
             handle(rec, nested, sc2, {"kind": "zd", "lists": L, "level": level, "cap": cap, "flag": flag, "slope": slope})
+    # ---- the zoned search on the repository's own bi-zoned candidate lists (borehole counts are NOT monotone along such a list: they
+    # drop at every group boundary), scripted excess decreasing in the borehole count
+    from ghedesigner.domains import bi_rectangle_zoned_nested
+
+    for it in range(spec.get("nzdreal", max(8, spec["nnested"] // 10))):
+        lx, ly = float(round(g.uniform(30, 90), 1)), float(round(g.uniform(25, 70), 1))
+        b_min = float(round(g.uniform(4.0, 7.0), 1))
+        bx, by = float(round(b_min * g.uniform(1.6, 3.0), 1)), float(round(b_min * g.uniform(1.6, 3.0), 1))
+        try:
+            with contextlib.redirect_stdout(io.StringIO()):
+                nested_r, descr_r = bi_rectangle_zoned_nested(lx, ly, b_min, bx, by)
+        except Exception:  # noqa: BLE001 - window too narrow for the generator: not this lane's subject (C03)
+            st("zd_real_lot_skipped")
+            continue
+        ids = {id(f): (li, fi) for li, fl in enumerate(nested_r) for fi, f in enumerate(fl)}
+        cnt_r = counts_of(nested_r)
+        allc = sorted(set(cnt_r.values()))
+        if len(allc) < 6:
+            st("zd_real_lot_skipped")
+            continue
+        drops = sum(1 for fl in nested_r for a_, b_ in zip(fl, fl[1:]) if len(b_) < len(a_))
+        for rep_ in range(6):
+            thr = float(g.uniform(allc[1], allc[-1] * 1.05))
+            a = float(g.uniform(0.02, 0.4))
+            tab = {k: a * (thr - c) + 0.0007 - 0.00001 * k[1] for k, c in cnt_r.items()}
+            flag = bool(g.random() < 0.4)
+            slope = float(g.choice([0.002, 0.02, 0.2]))
+            sc = Script(tab, slope)
+            rec = run_design("zd", nested_r, descr_r, sc, None, flag, key_fn=lambda coords: ids[id(coords)])
+            st("zd_real_count_drops_in_list" if drops else "zd_real_monotone_list")
+            handle(rec, nested_r, sc, {"kind": "zd-real-bizoned-list", "lot": [lx, ly, b_min, bx, by], "threshold_count": thr, "a": a, "flag": flag, "slope": slope})
     # ---- row-wise search: real field generation on real lots, scripted count -> excess
     from ghedesigner.rowwise import field_optimization_fr, field_optimization_wp_space_fr, gen_shape
 
